@@ -35,8 +35,12 @@ class C16(Prop):
                 c = {"fam": "bary", "n": dim, "op": kind, "center": center, "kind": "bary/%s/n%d%s" % (kind, dim, "/c" if center else "")}
                 if kind == "b2c":
                     X = [[dyad(rng, 0, 4, 16) for _ in range(dim)] for _ in range(nrows)]
-                    if rng.random() < 0.5:   # proper barycentric rows (sum 1)
+                    r0 = rng.random()
+                    if r0 < 0.4:   # proper barycentric rows (sum 1)
                         X = [[v / (sum(r) or 1.0) for v in r] for r in X]
+                    elif r0 < 0.6:  # whole-number data (photon counts, corner indicators) handed over with an integer dtype
+                        X = [[float(rng.randint(0, 40)) for _ in range(dim)] for _ in range(nrows)] if rng.random() < 0.6 else np.eye(dim)[:nrows].tolist()
+                        c["int"] = True; c["kind"] += "/int"
                     c["X"] = X
                 elif kind == "c2b":
                     c["X"] = [[dyad(rng, -1, 1, 32) for _ in range(dim - 1)] for _ in range(nrows)]
@@ -64,7 +68,10 @@ class C16(Prop):
                     for j in range(k, dim):
                         x[j] = 0.0
                 direction = rng.choice(["c2s", "c2s", "s2c"])
-                c = {"fam": "sphere", "dir": direction, "x": x, "shape": shape, "kind": "sphere/%s/n%d/%s" % (direction, dim, shape)}
+                # the same point in other length units: exact power-of-two rescaling of the input, undone on the returned radius
+                scale = rng.choice([1.0] * 5 + [2.0 ** -40, 2.0 ** -30, 2.0 ** 30])
+                c = {"fam": "sphere", "dir": direction, "x": x, "shape": shape, "scale": scale,
+                     "kind": "sphere/%s/n%d/%s%s" % (direction, dim, shape, "" if scale == 1.0 else "/scaled")}
                 if direction == "s2c":
                     r = dyad(rng, 0, 8, 8)
                     ang = [dyad(rng, 0, 3, 64) for _ in range(dim - 2)] + [dyad(rng, 0, 6, 64)]
@@ -82,7 +89,7 @@ class C16(Prop):
             A = barycentric_to_cartesian_transformer(n)
             out = {"A": A.tolist()}
             if case["op"] == "b2c":
-                out["Y"] = dreye.barycentric_to_cartesian(np.array(case["X"]), center=case["center"]).tolist()
+                out["Y"] = dreye.barycentric_to_cartesian(np.array(case["X"], dtype=(int if case.get("int") else float)), center=case["center"]).tolist()
             elif case["op"] == "c2b":
                 L1 = case["L1"]
                 L1a = None if L1 is None else (np.array(L1) if isinstance(L1, list) else L1)
@@ -90,12 +97,15 @@ class C16(Prop):
             elif case["op"] == "reduce":
                 out["Y"] = barycentric_dim_reduction(np.array(case["X"]), center=case["center"]).tolist()
             return out
+        sc = case.get("scale", 1.0)
         if case["dir"] == "c2s":
-            y = dreye.cartesian_to_spherical(np.array([case["x"]]))[0]
+            y = np.array(dreye.cartesian_to_spherical(np.array([case["x"]]) * sc)[0], dtype=float)
+            y[0] = y[0] / sc
             ang = y[1:]
             return {"y": y.tolist(), "cos": np.cos(ang).tolist(), "sin": np.sin(ang).tolist()}
         yin = np.array([case["y"]])
-        x = dreye.spherical_to_cartesian(yin)[0]
+        ysc = yin.copy(); ysc[0, 0] *= sc
+        x = np.asarray(dreye.spherical_to_cartesian(ysc)[0], dtype=float) / sc
         ang = yin[0][1:]
         return {"x": x.tolist(), "cos": np.cos(ang).tolist(), "sin": np.sin(ang).tolist()}
 
